@@ -155,6 +155,7 @@ type Exec struct {
 	globObjs  map[*ssa.Global]*Obj
 	globIndex map[*ssa.Global]int
 	regions   []*Obj
+	havocs    []*Obj
 	dirtyObjs []*Obj
 	maps      []*MapObj
 	snapMaps  int
@@ -521,7 +522,7 @@ func (ex *Exec) modelRegions(m *smt.Model) map[string]string {
 		return nil
 	}
 	out := map[string]string{}
-	for _, o := range ex.regions {
+	for _, o := range append(append([]*Obj(nil), ex.regions...), ex.havocs...) {
 		if o.arr == "" {
 			continue
 		}
@@ -532,7 +533,11 @@ func (ex *Exec) modelRegions(m *smt.Model) map[string]string {
 				buf[k] = v
 			}
 		}
-		out[o.name] = fmt.Sprintf("%x", buf)
+		name := o.name
+		if o.havocLabel != "" {
+			name = o.havocLabel
+		}
+		out[name] = fmt.Sprintf("%x", buf)
 	}
 	return out
 }
@@ -543,7 +548,7 @@ func (ex *Exec) modelLimits(m *smt.Model) map[string]uint64 {
 	}
 	out := map[string]uint64{}
 	for _, o := range ex.regions {
-		if o.limit != nil {
+		if o.limit != nil && o.region {
 			out[o.name] = smt.Eval(o.limit, m, map[int]uint64{})
 		}
 	}
@@ -680,6 +685,7 @@ func (ex *Exec) resetPath() {
 	ex.objs = ex.objs[:ex.snapObjs]
 	ex.nobj = ex.snapObjs
 	ex.regions = ex.regions[:0]
+	ex.havocs = ex.havocs[:0]
 	for _, m := range ex.maps[:ex.snapMaps] {
 		m.entries = append(m.entries[:0:0], m.saved...)
 	}
